@@ -29,7 +29,7 @@ static J case_json(const Case& c) {
 	if (c.file) j.set("src", "file").set("file", c.fname).set("shape", c.shapeIdx);
 	else
 		j.set("src", "built").set("kind", kind_id(c.spec.kind)).set("game", game_name(c.spec.game)).set("skinned", c.spec.skinned)
-			.set("locked", c.spec.locked).set("eye", c.spec.eye).set("partflags", c.spec.partflags).set("origin", c.reloaded ? "reloaded" : "api").set("V", c.V).set("mask", (int) c.mask);
+			.set("locked", c.spec.locked).set("eye", c.spec.eye).set("partflags", c.spec.partflags).set("uvsets", c.spec.uvsets).set("origin", c.reloaded ? "reloaded" : "api").set("V", c.V).set("mask", (int) c.mask);
 	J d = J::arr();
 	for (auto& s : c.dels) d.push(ints_json(s));
 	j.set("dels", d);
@@ -44,6 +44,7 @@ static bool case_from_json(const J& j, Case& c) {
 		c.spec.locked = j["locked"].b;
 		c.spec.eye = j["eye"].b;
 		if (j.has("partflags")) c.spec.partflags = (int) j["partflags"].i64();
+		if (j.has("uvsets")) c.spec.uvsets = (int) j["uvsets"].i64();
 		c.reloaded = j["origin"].str() == "reloaded";
 		c.V = (int) j["V"].i64();
 		c.mask = (uint32_t) j["mask"].i64();
@@ -334,6 +335,8 @@ static std::vector<Spec> all_specs() {
 				// partitions that keep only one of the two per-vertex tables (unlocked variants only)
 				if (sk && !lk && (k == K_TRISHAPE || k == K_BSTRI) && g != G_FO4)
 					for (int pf = 1; pf <= 2; pf++) { Spec s2 = s; s2.partflags = pf; v.push_back(s2); }
+				// Oblivion geometry data with three UV sets (the count lives in the data flags of files before stream 34)
+				if (!sk && !lk && g == G_OB && (k == K_TRISHAPE || k == K_TRISTRIPS)) { Spec s3 = s; s3.uvsets = 3; v.push_back(s3); }
 			}
 	};
 	for (Game g : {G_OB, G_FO3, G_SK}) { add(K_TRISHAPE, g); add(K_TRISTRIPS, g); }
